@@ -6,7 +6,7 @@ use rand::rngs::StdRng;
 use rand::SeedableRng;
 use serde_json::Value;
 
-mod c01;
+pub mod c01;
 mod c02;
 mod c03;
 mod c04;
@@ -17,6 +17,8 @@ mod c08;
 mod c09;
 mod c10;
 mod c13;
+mod c14;
+mod c15;
 mod c16;
 mod c18;
 pub mod expand;
@@ -107,7 +109,8 @@ impl Tracer {
 pub fn drive(prop: &str, tier: &str, seed: u64, outdir: &str) -> u64 {
     let thorough = tier == "thorough";
     let mut rng = StdRng::seed_from_u64(seed ^ 0x5eed_0000);
-    let mut tr = Tracer::new(outdir, &format!("drv-{}", prop), 3000);
+    let shard: usize = std::env::var("BDV_SHARD").ok().and_then(|s| s.parse().ok()).unwrap_or(3000);
+    let mut tr = Tracer::new(outdir, &format!("drv-{}", prop), shard);
     match prop {
         "C01" => c01::drive(&mut tr, &mut rng, thorough),
         "C02" => c02::drive(&mut tr, &mut rng, thorough),
@@ -122,6 +125,8 @@ pub fn drive(prop: &str, tier: &str, seed: u64, outdir: &str) -> u64 {
         "C11" => c10::drive_cbrt(&mut tr, &mut rng, thorough),
         "C12" => c10::drive_inverse(&mut tr, &mut rng, thorough),
         "C13" => c13::drive(&mut tr, &mut rng, thorough),
+        "C14" => c14::drive(&mut tr, &mut rng, thorough),
+        "C15" => c15::drive(&mut tr, &mut rng, thorough),
         "C16" => c16::drive(&mut tr, &mut rng, thorough),
         "C18" => c18::drive(&mut tr, &mut rng, thorough),
         _ => panic!("no driver for {}", prop),
